@@ -10,6 +10,7 @@ Oracle: after each scan the per-chunk flags and the return value equal the refer
 are on disk; validate-data reports success exactly when the reference data digest matches; file bytes are unchanged;
 the final read's bytes and verdict equal those of a context that never validated.
 """
+PROMOTE = True   # quick runs the former thorough bound (seconds); thorough goes deeper where a deeper bound is defined (ctx.deep)
 import itertools
 import core, zckref, universe
 from universe import Cfg
